@@ -466,15 +466,34 @@ def goodbyesOn (svc : Service) (i : MyIntf) : List (Bool × Packet) :=
 def goodbyes (intfs : List MyIntf) (svc : Service) : List (Nat × Bool × Packet) :=
   intfs.flatMap fun i => (goodbyesOn svc i).map fun (v4, p) => (i.index, v4, p)
 
+/-- `DnsRegistry::remove_waiting_service` (repair of D30): the unregistered service no longer
+    waits for any probe, and a probe that no service waits for any more is dropped -/
+def Registry.removeWaiting (r : Registry) (svcName : BList) : Registry :=
+  { r with probing := r.probing.filterMap fun e =>
+      if e.2.waiting.contains svcName && (e.2.waiting.filter (· != svcName)).isEmpty then none
+      else some (e.1, { e.2 with waiting := e.2.waiting.filter (· != svcName) }) }
+
+/-- the registries after `unregister`: on every interface of the daemon the service is taken
+    out of the probes it waits for -/
+def purgeWaiting (s : State) (svcName : BList) : State :=
+  s.intfs.foldl (fun st i =>
+    match alookup i.index st.registries with
+    | some r => st.setRegistry i.index (r.removeWaiting svcName)
+    | none => st) s
+
+/-- the interfaces on which the service has been announced: where a goodbye is due (repair of D30) -/
+def announcedIntfs (s : State) (svc : Service) : List MyIntf := s.intfs.filter fun i => svc.announcedOn i.index
+
 /-- `exec_command_unregister` -/
 def execUnregister (s : State) (now : Nat) (name : BList) (ch : Nat) : State × List Out :=
   match alookup (lower name) s.services with
   | none => (s, [.unregReply ch false])
   | some svc =>
-    let gs := goodbyes s.intfs svc
-    ({ s with services := aerase (lower name) s.services,
-              reruns := s.reruns ++ gs.map (fun (i, v4, p) => .unregisterResend (now + 120) p i v4),
-              timers := s.timers ++ gs.map (fun _ => now + 120) },
+    let gs := goodbyes (announcedIntfs s svc) svc
+    ({ (purgeWaiting s svc.fullname) with
+         services := aerase (lower name) s.services,
+         reruns := s.reruns ++ gs.map (fun (i, v4, p) => .unregisterResend (now + 120) p i v4),
+         timers := s.timers ++ gs.map (fun _ => now + 120) },
      gs.map (fun (i, v4, p) => Out.send i v4 none p) ++ [.unregReply ch true])
 
 /-- `exec_command_unregister_resend` -/
@@ -483,10 +502,10 @@ def execUnregisterResend (s : State) (pkt : Packet) (ifIdx : Nat) (v4 : Bool) : 
   | some i => if i.hasFamily v4 then [.send ifIdx v4 none pkt] else []
   | none => []
 
-/-- `cleanup` at `Exit`: goodbye for every service; everything is forgotten -/
+/-- `cleanup` at `Exit`: goodbye for every service where it has been announced; everything is forgotten -/
 def cleanup (s : State) : State × List Out :=
   ({ s with services := [], reruns := [], stopped := true },
-   s.services.flatMap fun (_, svc) => (goodbyes s.intfs svc).map fun (i, v4, p) => Out.send i v4 none p)
+   s.services.flatMap fun (_, svc) => (goodbyes (announcedIntfs s svc) svc).map fun (i, v4, p) => Out.send i v4 none p)
 
 /-! ### `RegisterResend` -/
 
